@@ -155,12 +155,11 @@ def macroMatches (m : Macro) (s : Str) : Bool := (applyMacro m s).2
 
 inductive Fuel where | ok (s : Str) | diverge
 
-/-- `Context::replace_all`: the set of applicable macros is computed on the ORIGINAL line; they
-    are applied in definition order, again and again until a pass changes nothing. -/
+/-- `Context::replace_all`: at the start of every pass the set of applicable macros is computed on the line as
+    it is then; they are applied in definition order; passes repeat until one changes nothing. -/
 def replaceAll (macros : List Macro) (s : Str) : Nat → Option Str
   | 0 => none            -- the Rust loop would still be running
   | fuel + 1 =>
-    let app := macros.filter fun m => macroMatches m s
     let rec pass (ms : List Macro) (res : Str) (changed : Bool) : Str × Bool :=
       match ms with
       | [] => (res, changed)
@@ -168,7 +167,9 @@ def replaceAll (macros : List Macro) (s : Str) : Nat → Option Str
     let rec loop (n : Nat) (res : Str) : Option Str :=
       match n with
       | 0 => none
-      | k + 1 => let x := pass app res false; if x.2 then loop k x.1 else some x.1
+      | k + 1 =>
+        let app := macros.filter fun m => macroMatches m res
+        let x := pass app res false; if x.2 then loop k x.1 else some x.1
     loop (fuel + 1) s
 
 /-! ### the `#if` evaluator -/
